@@ -107,6 +107,93 @@ Proof.
   exists (Codec_ts_join ts_invalid ts_invalid). split; [reflexivity|]. split; reflexivity.
 Qed.
 
+(* ... and stamps with a whole number of seconds (ns = 0): the sum is exact, the fractional part is zero *)
+Lemma Codec_rnd53_small : forall m e, 0 < m < 2 ^ 53 -> Codec_rnd53 m e = (m, e).
+Proof.
+  intros m e H. unfold Codec_rnd53.
+  replace (m <=? 0) with false by lia.
+  assert (Z.log2 m < 53) by (apply Z.log2_lt_pow2; lia).
+  replace (Z.log2 m + 1 <=? 53) with true by lia. reflexivity.
+Qed.
+
+Lemma Codec_of_to_bits : forall m e, 0 < m < 2 ^ 53 ->
+  let k := 53 - (Z.log2 m + 1) in
+  0 < e - k + 1075 ->
+  Codec_of_bits (Codec_to_bits (m, e)) = (m * 2 ^ k, e - k) /\ 0 <= k /\ 2 ^ 52 <= m * 2 ^ k < 2 ^ 53.
+Proof.
+  intros m e H k He.
+  assert (L : Z.log2 m < 53) by (apply Z.log2_lt_pow2; lia).
+  assert (L0 : 0 <= Z.log2 m) by apply Z.log2_nonneg.
+  assert (K : 0 <= k) by (unfold k; lia).
+  destruct (Z.log2_spec m ltac:(lia)) as [Lo Hi].
+  assert (B : 2 ^ 52 <= m * 2 ^ k < 2 ^ 53).
+  { replace 52 with (Z.log2 m + k) by (unfold k; lia). replace 53 with (Z.succ (Z.log2 m) + k) by (unfold k; lia).
+    rewrite !Z.pow_add_r by lia. assert (0 < 2 ^ k) by (apply Z.pow_pos_nonneg; lia). nia. }
+  split; [|split; auto].
+  unfold Codec_to_bits. replace (m <=? 0) with false by lia. fold k.
+  set (M := m * 2 ^ k) in *. set (E := e - k) in *.
+  unfold Codec_of_bits.
+  assert (D : ((E + 1075) * 2 ^ 52 + (M - 2 ^ 52)) / 2 ^ 52 = E + 1075).
+  { rewrite Z.div_add_l by lia. rewrite Z.div_small by lia. lia. }
+  assert (R : ((E + 1075) * 2 ^ 52 + (M - 2 ^ 52)) mod 2 ^ 52 = M - 2 ^ 52).
+  { rewrite Z.add_comm, Z.mod_add by lia. apply Z.mod_small. lia. }
+  rewrite D, R. replace (E + 1075 =? 0) with false by lia. f_equal; lia.
+Qed.
+
+Lemma Codec_ts_projection_integer_seconds : forall z, 0 <= z < 2 ^ 64 ->
+  Codec_ts_ns z = 0 -> Codec_ts_sec z < ts_invalid - 1 ->
+  Codec_aval_ok U64 ATimestamp (Codec_ts_dec z).
+Proof.
+  intros z Hz Hn Hs. unfold Codec_ts_sec, Codec_ts_ns in *.
+  assert (Zs : z = z mod 2 ^ 32) by (pose proof (Z.div_mod z (2 ^ 32) ltac:(lia)); lia).
+  set (sec := z mod 2 ^ 32) in *.
+  assert (S0 : 0 <= sec < 2 ^ 32) by (apply Z.mod_pos_bound; lia).
+  change ts_invalid with 4294967295 in *.
+  assert (Dz : Codec_ts_dec z = FInt (Codec_to_bits (Codec_fadd (sec, 0) (Codec_fmul (0, 0) Codec_c_dec)))).
+  { unfold Codec_ts_dec, Codec_ts_sec, Codec_ts_ns. fold sec. rewrite Hn. change ts_invalid with 4294967295.
+    replace ((sec =? 4294967295) || (0 =? 4294967295)) with false by lia. reflexivity. }
+  assert (M0 : Codec_fmul (0, 0) Codec_c_dec = (0, 0)) by reflexivity.
+  rewrite M0 in Dz.
+  destruct (Z.eq_dec sec 0) as [E0 | N0].
+  - (* zero *) rewrite Dz, E0. exists 0. repeat split; try reflexivity.
+  - assert (A : Codec_fadd (sec, 0) (0, 0) = (sec, 0)).
+    { unfold Codec_fadd. cbn [fst snd]. rewrite Z.min_id, Z.sub_diag. cbn [Z.pow]. rewrite Z.mul_1_r, Z.mul_0_l, Z.add_0_r.
+      apply Codec_rnd53_small. lia. }
+    rewrite A in Dz. rewrite Dz.
+    assert (Hm : 0 < sec < 2 ^ 53) by lia.
+    assert (L32 : Z.log2 sec < 32) by (apply Z.log2_lt_pow2; lia).
+    pose proof (Z.log2_nonneg sec) as L0.
+    destruct (Codec_of_to_bits sec 0 Hm ltac:(lia)) as (OB & K0 & MB).
+    set (k := 53 - (Z.log2 sec + 1)) in *.
+    assert (K21 : 21 <= k) by (unfold k; lia).
+    assert (P : 0 < 2 ^ k) by (apply Z.pow_pos_nonneg; lia).
+    assert (BR : 0 <= Codec_to_bits (sec, 0) < 2047 * 2 ^ 52).
+    { unfold Codec_to_bits. replace (sec <=? 0) with false by lia. fold k. change (0 - k) with (- k). lia. }
+    assert (EN : Codec_ts_enc (FInt (Codec_to_bits (sec, 0))) = Some (Codec_ts_join sec 0)).
+    { unfold Codec_ts_enc.
+      replace ((Codec_to_bits (sec, 0) <? 0) || (2047 * 2 ^ 52 <=? Codec_to_bits (sec, 0))) with false by lia.
+      rewrite OB. cbn [fst snd]. unfold Codec_floor.
+      replace (0 <=? 0 - k) with false by lia. replace (- (0 - k)) with k by lia.
+      rewrite Z.div_mul by lia. rewrite Z.sub_diag.
+      assert (F0 : Codec_fmul (0, 0 - k) Codec_c_enc = (0, 0)) by (unfold Codec_fmul; cbn [fst snd]; rewrite Z.mul_0_l; reflexivity).
+      rewrite F0. cbn [Codec_round_int]. change ts_carry_at with 1000000000.
+      replace (1000000000 <=? (if 0 <=? 0 then 0 * 2 ^ 0 else _)) with false by reflexivity.
+      cbn [Z.leb Z.compare Z.mul Z.pow].
+      match goal with |- (if ?c then _ else _) = _ => replace c with true by (change (Z.pow_pos 2 32) with (2 ^ 32); lia) end.
+      reflexivity. }
+    exists (Codec_ts_join sec 0). split; [exact EN|]. split.
+    + unfold Codec_krange, Codec_ts_join. cbn. lia.
+    + cbn [Codec_adec]. f_equal. unfold Codec_ts_join. rewrite Z.mul_0_l, Z.add_0_r.
+      rewrite <- Zs at 1. exact Dz.
+Qed.
+
+Lemma Codec_ts_projection_partial : forall z, 0 <= z < 2 ^ 64 ->
+  ((Codec_ts_sec z =? ts_invalid) || (Codec_ts_ns z =? ts_invalid) = true \/ (Codec_ts_ns z = 0 /\ Codec_ts_sec z < ts_invalid - 1)) ->
+  Codec_aval_ok U64 ATimestamp (Codec_ts_dec z).
+Proof.
+  intros z R [S | [N S]]. apply Codec_ts_projection_sentinel; auto. apply Codec_ts_projection_integer_seconds; auto.
+Qed.
+
 (* the code before the repair did not satisfy the law: (529378 s, 273878287 ns) came back as ...286 *)
 Lemma Codec_ts_legacy_refuted :
   exists z z', Codec_ts_dom z = true /\ Codec_ts_enc_legacy (Codec_ts_dec z) = Some z' /\
